@@ -402,7 +402,7 @@ func (e *Engine) VerifyProps(props []string, only map[string]bool, opts runOpts,
 		}
 	}
 	// second chance, unloaded: an obligation left open by a solver timeout while 16
-	// queries ran side by side is retried alone, all solvers racing, with twice the time
+	// queries ran side by side is retried alone, all solvers racing, with three times the time
 	// (a proof that only fails under load would otherwise be a false alarm)
 	retried, open := 0, 0
 	for _, o := range rep.Obligations {
@@ -411,20 +411,20 @@ func (e *Engine) VerifyProps(props []string, only map[string]bool, opts runOpts,
 		}
 	}
 	for _, o := range rep.Obligations {
-		if open > 6 {
+		if open > 8 {
 			break // many open goals: not a load effect
 		}
 		if opts.knownObls[o.Name] {
 			continue // a recorded finding: expected to fail
 		}
-		if o.Cover || o.Query == "" || retried >= 4 {
+		if o.Cover || o.Query == "" || retried >= 6 {
 			continue
 		}
 		if !(o.Verdict == "undecided" || (o.Verdict == "failed" && o.Candidate)) {
 			continue
 		}
 		retried++
-		full, fall := solveRace(prelude+o.Query, 2*opts.timeoutMs)
+		full, fall := solveRace(prelude+o.Query, 3*opts.timeoutMs)
 		if verbose {
 			fmt.Fprintf(os.Stderr, "retry %s p%d -> %s by %s (%.1fs)\n", o.Name, o.PathID, full.Verdict, full.Solver, full.Secs)
 		}
